@@ -17,10 +17,12 @@ import (
 type optSet struct {
 	name    string
 	opts    cron.ParseOption
-	seconds int  // 0 no seconds field, 1 required, 2 optional
-	dowOpt  bool // day-of-week may be omitted
-	desc    bool // descriptors accepted
-	std     bool // additionally exercised through cron.ParseStandard
+	seconds int   // 0 no seconds field, 1 required, 2 optional
+	dowOpt  bool  // day-of-week may be omitted
+	desc    bool  // descriptors accepted
+	std     bool  // additionally exercised through cron.ParseStandard
+	custom  bool  // only lists the configured fields (else: [seconds] minute hour dom month dow)
+	only    []int // configured field indices, in order (custom sets)
 }
 
 const fiveFields = cron.Minute | cron.Hour | cron.Dom | cron.Month
@@ -35,13 +37,31 @@ var optSets = []optSet{
 	{name: "seconds-nodesc", opts: cron.Second | fiveFields | cron.Dow, seconds: 1},
 }
 
+// extraOptSets: parsers that leave out some of the five standard fields (a
+// field that is not configured takes its default: 0 for second/minute/hour,
+// * for the rest). Used by the "same text, different parsers" cases only.
+var extraOptSets = []optSet{
+	{name: "descriptor-only", opts: cron.Descriptor, desc: true, custom: true, only: []int{}},
+	{name: "minute-hour", opts: cron.Minute | cron.Hour, custom: true, only: []int{fMin, fHour}},
+	{name: "dom-month-dow-optional", opts: cron.Dom | cron.Month | cron.DowOptional, dowOpt: true, custom: true, only: []int{fDom, fMonth, fDow}},
+	{name: "seconds-first-no-dow", opts: cron.Second | fiveFields, seconds: 1, custom: true, only: []int{fSec, fMin, fHour, fDom, fMonth}},
+}
+
+// positions: the configured fields, in the order they are written.
+func (o optSet) positions() []int {
+	if o.custom {
+		return o.only
+	}
+	if o.seconds > 0 {
+		return []int{fSec, fMin, fHour, fDom, fMonth, fDow}
+	}
+	return []int{fMin, fHour, fDom, fMonth, fDow}
+}
+
 // counts returns the accepted numbers of fields.
 func (o optSet) counts() (lo, hi int) {
-	n := 5
-	if o.seconds > 0 {
-		n++
-	}
-	lo, hi = n, n
+	hi = len(o.positions())
+	lo = hi
 	if o.seconds == 2 || o.dowOpt {
 		lo--
 	}
@@ -339,22 +359,23 @@ func refParse(o optSet, spec string) (*refSched, outcome, string) {
 	if len(fields) < lo || len(fields) > hi {
 		return nil, ocRefuse, fmt.Sprintf("wrong-field-count: %d, want %d..%d", len(fields), lo, hi)
 	}
-	var six [6]string
-	switch {
-	case o.seconds == 0:
-		six[0] = "0"
-		copy(six[1:], fields)
-		if len(fields) == 4 {
-			six[5] = "*"
+	six := [6]string{"0", "0", "0", "*", "*", "*"} // defaults of fields that are not written
+	pos := append([]int(nil), o.positions()...)
+	if len(fields) < len(pos) { // the optional field is the one left out
+		drop := fSec
+		if o.dowOpt {
+			drop = fDow
 		}
-	case o.seconds == 2 && len(fields) == 5:
-		six[0] = "0"
-		copy(six[1:], fields)
-	default:
-		copy(six[:], fields)
-		if len(fields) == 5 {
-			six[5] = "*"
+		kept := pos[:0]
+		for _, f := range pos {
+			if f != drop {
+				kept = append(kept, f)
+			}
 		}
+		pos = kept
+	}
+	for i, f := range fields {
+		six[pos[i]] = f
 	}
 	refused, refWhy := false, ""
 	for i := range six {
